@@ -5,11 +5,16 @@ filled by building every definition as the first thing in its own fresh
 process:
 
 (a) repetition (E1, NRT): every graph program of the C01 spaces below the bound
-    is built several times from freshly created functions; all results equal.
+    (scalar programs and programs over channel lists) is built several times,
+    alternately from a freshly created function and from the function object
+    of the build before; all results equal.
 (b) histories (E2, NRT): every sequence of <= N operations over {good builds,
-    failing builds, SynthDesc.new_from, units created outside}; after every
-    step the build context is None, the build lock is free, a unit created
-    outside has no definition and good builds equal the reference bytes.
+    failing builds, SynthDesc.new_from, units created outside} and over {builds
+    that share their function and argument objects, SynthDef.add, the
+    @synthdef decorator, store + reading the files back, deferred writing};
+    after every step the build context is None, the build lock is free, units
+    created outside (plain, multi-output, width-first) have no definition and
+    good builds equal the reference bytes.
 (c) census (cross-process): the outcome of a fixed set of definitions and
     programs is computed in fresh subprocesses under several PYTHONHASHSEED
     values, in NRT and in RT-virtual mode, forwards and backwards; all equal.
@@ -55,9 +60,27 @@ G_P0 = {'stmts': [['mul', 'A', 'K'], ['madd', 'A', 'v0', 'P'],
 GOOD = ['g:p0', 'g:ctl', 'g:wrapfft']
 SMALL = ['g:s1', 'g:s2']          # few context accesses: used by part (d)
 FAIL = ['f:fn', 'f:rate', 'f:nan', 'f:name', 'f:intr']
-FAIL_MORE = ['f:sig', 'f:wrap']
+FAIL_MORE = ['f:sig', 'f:wrap', 'f:type']
 DESC = ['desc:g:ctl', 'desc:g:p0:nokeep', 'desc:g:ctl:bad']
-ALL_DEFS = GOOD + SMALL + FAIL + FAIL_MORE
+# definitions whose function objects AND build argument objects (rates,
+# prepend, variants, metadata with specs, a closed-over Env, the arguments of
+# an inner wrap) are created once per process and shared by every build of
+# all of them: 'repeated builds' of the very same objects, and the script idiom
+# SynthDef('a', fa, **common); SynthDef('b', fb, **common).  g:sh3 is the
+# function of g:sh1 built without variants and metadata (its None defaults are
+# then not replaced by spec defaults).
+SHARED = ['g:sh1', 'g:sh2', 'g:sh3', 'f:sh']
+ALL_DEFS = GOOD + SMALL + FAIL + FAIL_MORE + SHARED
+# other public routes that build a definition or read one back (every one of
+# them is 'earlier use of the library' for what follows)
+LIBUSE = ['add:g:ctl', 'deco:g:sh1', 'deco:g:sh3', 'store:g:sh1', 'late:g:p0']
+LANE_MAPS = ['alt', 'mix', 'three']     # names of mc.checks.c01.LANES
+# (b) second alphabet: shared objects x library routes x width-first units
+OPS2 = SHARED + LIBUSE + ['g:wrapfft', 'f:fn', 'f:type', 'desc:g:wrapfft',
+                          'bare']
+# census items that are operations (the definition built in them is compared)
+CENSUS_OPS = LIBUSE + ['add:g:sh2', 'deco:g:ctl', 'deco:g:s1',
+                       'desc:g:wrapfft']
 
 _L = None
 
@@ -80,9 +103,108 @@ def _lib():
     return _L
 
 
+_S = None
+
+
+def _shared():
+    """The process-wide objects of the SHARED definitions (never re-created:
+    that every build sees the same objects is the point)."""
+    global _S
+    if _S is not None:
+        return _S
+    m = _lib()
+    from sc3.synth.spec import ControlSpec
+
+    class S:
+        pass
+    S.env = m.Env([0, 1, 0.5, 0], [0.01, 0.2, 0.5], 'sin', 2)
+    S.rates = [None, 'ir', 0.25, 0.1]      # shorter than the parameter lists
+    S.prepend = [0.5]
+    S.variants = {'lo': {'freq': 110}, 'hi': {'freq': 880, 'amp': 0.25}}
+    S.metadata = {'specs': {
+        'freq': ControlSpec(20, 20000, 'exp', default=330),
+        'cut': ControlSpec(100, 8000, 'exp', default=1200)}, 'by': 'c20'}
+    S.wrap_rates = ['tr']
+    S.wrap_prepend = [2]
+
+    def inner(mul, trig=0, cut=None):
+        n = m.noise.WhiteNoise.ar() * mul
+        return m.flt.LPF.ar(n, cut) * m.eg.EnvGen.kr(S.env, trig)
+
+    def sh1(scale, freq=None, amp=0.5, lagged: 'tr' = 0.1, gate=1, cut=None,
+            mode='x'):
+        # lagged: the lag 0.25 of a trigger control is ignored (warning);
+        # mode: a default that is no control value is replaced (warning) and
+        # has no spec
+        s = m.osc.SinOsc.ar(freq) * amp * scale
+        e = m.eg.EnvGen.kr(S.env, gate, done_action=2)
+        f = m.flt.LPF.ar(s * e, cut + mode)
+        m.io.Out.ar(0, [f * lagged, f])
+
+    def sh2(scale, freq=None, amp=0.25):
+        x = m.SynthDef.wrap(inner, rates=S.wrap_rates,
+                            prepend=S.wrap_prepend)
+        # controls made by hand (the idiom of sc3.base.play) and an envelope
+        # that asks for the build context
+        m.io.Control.add_name('extra')
+        extra = m.io.Control.kr(0.75)
+        loop = m.Env([0, 1, 0], [0.1, 0.2]).circle()
+        e = m.eg.EnvGen.kr(loop)
+        s = m.osc.SinOsc.ar(freq) * amp * scale
+        m.io.Out.ar(0, (x + s) * e * extra)
+
+    def shf(scale, freq=None, amp=0.5):
+        x = m.SynthDef.wrap(inner, rates=S.wrap_rates,
+                            prepend=S.wrap_prepend)
+        e = m.eg.EnvGen.kr(S.env, 1, done_action=2)
+        m.io.Out.ar(0, m.osc.SinOsc.ar(freq) * amp * scale * e + x)
+        raise RuntimeError('the shared graph function fails')
+    S.funcs = {'g:sh1': sh1, 'g:sh2': sh2, 'f:sh': shf}
+    _S = S
+    return S
+
+
 def make_def(key):
     """Build the definition `key` through the real constructor (may raise)."""
-    m = _lib()
+    name, func, kwargs = def_parts(key)
+    return _lib().SynthDef(name, func, **kwargs)
+
+
+class _Recorder:
+    """Stands in for the library's SynthDef class inside `_def_table`: the
+    constructor call is returned as data instead of being performed."""
+
+    def __init__(self, real):
+        self.wrap = real.wrap
+
+    def __call__(self, name, func, **kwargs):
+        return name, func, kwargs
+
+
+def def_parts(key):
+    """-> (name, graph function, keyword arguments) of the definition `key`;
+    all objects fresh, except those of the SHARED definitions."""
+    real = _lib()
+
+    class M:
+        pass
+    m = M()
+    m.__dict__.update({k: v for k, v in vars(real).items()
+                       if not k.startswith('__')})
+    m.SynthDef = _Recorder(real.SynthDef)
+    return _def_table(key, m)
+
+
+def _def_table(key, m):
+    if key == 'g:sh3':
+        S = _shared()
+        return m.SynthDef('gs', S.funcs['g:sh1'], rates=S.rates,
+                          prepend=S.prepend)
+    if key in SHARED:
+        S = _shared()
+        return m.SynthDef('gs', S.funcs[key], rates=S.rates,
+                          prepend=S.prepend, variants=S.variants,
+                          metadata=S.metadata)
     if key == 'g:p0':
         graph, _ = gp.make_function(G_P0)
         return m.SynthDef('g', graph)
@@ -160,6 +282,13 @@ def make_def(key):
         def graph(out=0):
             m.io.Out.ar(out, m.SynthDef.wrap(inner))
         return m.SynthDef('g2', graph)
+    if key == 'f:type':
+        # a callable that is not a function: refused after the context is set
+        import functools
+
+        def graph(a, freq=440):
+            m.io.Out.ar(0, m.osc.SinOsc.ar(freq) * a)
+        return m.SynthDef('g', functools.partial(graph, 0.5))
     raise core.HarnessError(f'unknown definition {key}')
 
 
@@ -170,26 +299,31 @@ def _sha(data):
 _PASS = ('Abort', 'StepBudgetExceeded')
 
 
-def run_op(op, keep=None):
-    """Perform one operation on the real library -> outcome (plain data).
-    `keep` (a list) receives the created objects so that they stay alive."""
-    m = _lib()
+def _bare_units(m):
+    """Units of every kind of context reader, created outside any build:
+    plain units and operators, the channels of a multi-output unit and its
+    source, width-first units (their own attach method), control units."""
+    x = m.osc.SinOsc.ar([440, 441])
+    y = x * 0.5
+    z = m.pan.Pan2.ar(m.noise.WhiteNoise.ar(), 0.5)
+    c = m.fft.FFT.kr(0, x[0])
+    w = m.fft.IFFT.ar(m.fft.PV_MagAbove.new(c, 0.25))
+    k = m.io.Control.kr([1, 2])
+    a = m.io.AudioControl.ar([0])
+    units = list(x) + list(y) + list(z) + [z[0].source_ugen, c, w,
+                                           c.inputs[1]]
+    for ch in list(k) + [a]:        # two channels / a single channel
+        units += [ch, ch.source_ugen]
+    return units
+
+
+def _lib_use(m, op, sd, data):
+    """The library routes that register / store / read a definition -> note
+    (what they return or raise is not decided by the statement)."""
+    import io as _io
+    route = op.split(':', 1)[0]
     try:
-        if op == 'bare':
-            x = m.osc.SinOsc.ar([440, 441])
-            y = x * 0.5
-            z = m.pan.Pan2.ar(m.noise.WhiteNoise.ar(), 0.5)
-            units = list(x) + list(y) + list(z) + [z[0].source_ugen]
-            if keep is not None:
-                keep.append(units)
-            return ['bare', all(u._synthdef is None for u in units)]
-        key = build_ref.ref_key(op)
-        sd = make_def(key)
-        if keep is not None:
-            keep.append(sd)
-        data = gp.sd_bytes(sd)
-        out = ['ok', _sha(data)]
-        if op.startswith('desc:'):
+        if route == 'desc':
             if op.endswith(':bad'):
                 cut = data[:len(data) * 2 // 3]
 
@@ -201,13 +335,69 @@ def run_op(op, keep=None):
                 arg, kd = Truncated(), True
             else:
                 arg, kd = sd, not op.endswith(':nokeep')
+            m.SynthDesc.new_from(arg, kd)
+        elif route == 'add':
+            sd.add()
+        elif route == 'store':
+            import pathlib
+            import shutil
+            import tempfile
+            from sc3.synth.synthdesc import SynthDescLib
+            d = tempfile.mkdtemp(prefix='c20-store-')
             try:
-                m.SynthDesc.new_from(arg, kd)
-                out.append('desc-ok')
-            except Exception as e:
-                out.append('desc-raises-' + type(e).__name__)
-            if arg is sd and gp.sd_bytes(sd) != data:
-                out[1] = 'changed-by-new_from'
+                sd.store(dir=d)
+                path = pathlib.Path(d) / f'{sd.name}.scsyndef'
+                lib = SynthDescLib.get_lib('default')
+                lib.read(path, keep_defs=False)
+                # (a file holding several definitions with variants cannot
+                # be read back by the library at all: not tried)
+                try:
+                    m.SynthDesc.read(path, keep_defs=True)
+                except AttributeError:
+                    pass
+                m.SynthDesc._read_stream(_io.BytesIO(data), True)
+                # load(): definition file + description + metadata file
+                sd.load(None, dir=d)
+            finally:
+                shutil.rmtree(d, ignore_errors=True)
+        return route + '-ok'
+    except Exception as e:
+        return f'{route}-raises-{type(e).__name__}'
+
+
+def run_op(op, keep=None):
+    """Perform one operation on the real library -> outcome (plain data).
+    `keep` (a list) receives the created objects so that they stay alive."""
+    m = _lib()
+    try:
+        if op == 'bare':
+            units = _bare_units(m)
+            if keep is not None:
+                keep.append(units)
+            return ['bare', all(u._synthdef is None for u in units)]
+        key = build_ref.ref_key(op)
+        route = op.split(':', 1)[0]
+        if route == 'deco':
+            # the decorator: builds, adds and registers a boot action
+            from sc3.synth.synthdef import synthdef
+            name, func, kwargs = def_parts(key)
+            func.__name__ = name
+            sd = synthdef(**kwargs)(func) if kwargs else synthdef(func)
+        else:
+            sd = make_def(key)
+        if keep is not None:
+            keep.append(sd)
+        if route == 'late':
+            # the bytes are written only after other builds (one failing),
+            # a description read-back and outside units have come and gone
+            for other in ('f:fn', 'desc:g:s2', 'bare'):
+                run_op(other, keep)
+        data = gp.sd_bytes(sd)
+        out = ['ok', _sha(data)]
+        if route in ('desc', 'add', 'store'):
+            out.append(_lib_use(m, op, sd, data))
+            if gp.sd_bytes(sd) != data:
+                out[1] = 'changed-by-' + route
         return out
     except BaseException as e:
         if type(e).__name__ in _PASS:
@@ -225,7 +415,13 @@ def post_state():
     if got:
         lock.release()
     try:
-        probe = m.osc.SinOsc.kr(1.0)._synthdef is None
+        # one unit per attach method of the library: plain, output proxy
+        # (and its multi-output source), width-first
+        x = m.osc.SinOsc.kr(1.0)
+        z = m.pan.Pan2.ar(x, 0.5)
+        c = m.fft.FFT.kr(0, x)
+        probe = all(u._synthdef is None
+                    for u in (x, z[0], z[1], z[0].source_ugen, c))
     except Exception:
         probe = False
     post = {'ctx_none': cur is None, 'lock_free': bool(got),
@@ -320,9 +516,13 @@ def check_rep(prog, builds):
     keep = []
     outs = []
     dis = []
-    for _ in range(builds):
+    graph = None
+    for i in range(builds):
         try:
-            graph, _r = gp.make_function(prog)
+            # every second build re-uses the function object of the build
+            # before it, the others get a freshly created function
+            if i % 2 == 0 or graph is None:
+                graph, _r = gp.make_function(prog)
             sd = m.SynthDef('g', graph)
             keep.append(sd)
             outs.append(['ok', gp.sd_bytes(sd)])
@@ -359,7 +559,8 @@ def _rep_walk(job, upto=None):
     (index, prog, result of check_rep)."""
     from mc.checks import c01
     it = c01.programs(job['space'], job['shard'], job['of'], job['tagbase'],
-                      job.get('slice_of', 1), job.get('slice_ix', 0))
+                      job.get('slice_of', 1), job.get('slice_ix', 0),
+                      job.get('lanes'))
     for idx, prog in enumerate(it):
         yield idx, prog, check_rep(prog, job['builds'])
         if upto is not None and idx >= upto:
@@ -406,12 +607,13 @@ def replay_rep(case):
 
 def hist_nontrivial(h):
     """The last step tests isolation from something earlier: it follows a
-    failing build, a description read-back or a different good build."""
+    failing build, a description read-back, a registration / storage route
+    or a different good build."""
     if len(h) < 2:
         return False
     last = h[-1]
-    return any(o.startswith(('f:', 'desc:')) or
-               (o.startswith('g:') and o != last) for o in h[:-1])
+    return any(o.startswith(('f:', 'desc:', 'late:') + build_ref.LIB_ROUTES)
+               or (o.startswith('g:') and o != last) for o in h[:-1])
 
 
 def _hist_walk(job, stop=None):
@@ -547,7 +749,7 @@ def census_child():
     if mode == 'rt':
         from mc import seams
         ex = seams.Execution([], start_clocks=False)
-    items = [('d:' + k, k) for k in ALL_DEFS]
+    items = [('d:' + k, k) for k in ALL_DEFS + CENSUS_OPS]
     if only:
         # pristine reference: this one definition is the first thing built
         items = [it for it in items if it[0] == focus]
@@ -934,7 +1136,19 @@ assert SinOsc.ar(1)._synthdef is None   # a unit created outside any build
 # parent side
 # ---------------------------------------------------------------------------
 
+def _parts():
+    """C20_PARTS=a,b,c,d (development aid): run only these parts; a longer
+    token selects the bounds whose label contains it.  A partial run is
+    recorded as a cap."""
+    v = os.environ.get('C20_PARTS')
+    return set(v.split(',')) if v else None
+
+
 def _run_part(ctx, mode, fname, jobs, bound, cands):
+    sel = _parts()
+    if sel is not None and not (bound[1:2] in sel or any(
+            len(x) > 1 and x in bound for x in sel)):
+        return
     jobs = list(jobs)
     order = core.shard_order(len(jobs), ctx.seed)
     # maxtasks=1: every shard runs in a fresh worker process
@@ -1062,8 +1276,8 @@ def _census(ctx, tagbase, slice_of, cands, refs):
         return
     base = results[0]
     items = len(base)
-    for k in ALL_DEFS:
-        a, b = refs[k], base['d:' + k][:2]
+    for k in ALL_DEFS + CENSUS_OPS:
+        a, b = refs[build_ref.ref_key(k)], base['d:' + k][:2]
         if a[0] != b[0] or (a[0] == 'ok' and a[1] != b[1]):
             kind = 'census-differs-from-pristine-reference'
             case = {'part': 'c', 'item': 'd:' + k, 'a': base_cfg,
@@ -1101,7 +1315,8 @@ def _census(ctx, tagbase, slice_of, cands, refs):
     ctx.bounds['(c) census'] = {
         'items': items, 'configurations': [' '.join(c) for c in cfgs],
         'definitions': len(ALL_DEFS),
-        'programs': items - len(ALL_DEFS),
+        'operations': len(CENSUS_OPS),
+        'programs': items - len(ALL_DEFS) - len(CENSUS_OPS),
         'evaluations': items * len(cfgs)}
     ctx.extra['census_configurations'] = len(cfgs)
     ctx.extra['census_items'] = items
@@ -1120,8 +1335,9 @@ def main(ctx):
         'different (item, configuration) pair (c), different choice sequence '
         '(d). Non-trivial = (a) the program reaches an optimiser rewrite, a '
         'constructor shortcut, dead code or a shared operand (decided on the '
-        'AST); (b) the last step of the history follows a failing build, a '
-        'description read-back or a different good build; (d) the schedule '
+        'AST) or runs over channel lists; (b) the last step of the history '
+        'follows a failing build, a description read-back, a registration / '
+        'storage route or a different good build; (d) the schedule '
         'contains at least one preemption. Census items are counted as '
         'evaluations only.')
     ctx.assumptions += [
@@ -1129,7 +1345,14 @@ def main(ctx):
         'pristine NRT process with PYTHONHASHSEED=0; all other processes, '
         'modes, seeds, histories and schedules are compared with it',
         'exception class of a failing build and the result of '
-        'SynthDesc.new_from are not decided by the statement (accepted)',
+        'SynthDesc.new_from / SynthDef.add / store / SynthDescLib.read / '
+        'SynthDesc.read are not decided by the statement (accepted); the '
+        'definition built inside such an operation must still equal the '
+        'reference, also when written again afterwards',
+        'g:sh* / f:sh share one set of function and argument objects per '
+        'process (rates and prepend lists, variants and metadata dicts, a '
+        'closed-over Env): the library may extend the rates list with '
+        'neutral entries, the bytes must not change',
         '(d): interleavings at lock operations, thread start/exit and at '
         'every read/write of main._current_synthdef (data descriptor on the '
         'metaclass, installed only during the executions); a bare unit '
@@ -1147,6 +1370,14 @@ def main(ctx):
              'builds': builds} for i in range(8)]
     _run_part(ctx, 'nrt', 'work_rep', jobs,
               f'(a) 1 statement, full pool, {builds} builds each', cands)
+    # multichannel expansion: every statement becomes one unit per lane,
+    # shared leaves get several consumers that are ready at the same time
+    jobs = [{'space': 'l1', 'shard': i, 'of': 4, 'tagbase': tagbase,
+             'builds': builds, 'lanes': ln}
+            for ln in LANE_MAPS for i in range(4)]
+    _run_part(ctx, 'nrt', 'work_rep', jobs,
+              f'(a) 1 statement over channel lists ({len(LANE_MAPS)} lane '
+              f'maps), {builds} builds each', cands)
     if quick:
         # 236 first statements, dealt to 8 shards; slice = every k-th round
         k = 30
@@ -1166,9 +1397,11 @@ def main(ctx):
 
     # (b) histories
     ops = GOOD + FAIL + DESC + ['bare']
-    plans = [(ops, 4)]
+    plans = [(ops, 4), (OPS2, 3)]
     if not quick:
         plans.append((ops + FAIL_MORE + SMALL, 3))
+        plans.append((OPS2, 4))
+        plans.append((sorted(set(ops + OPS2)), 3))
         plans.append((['g:p0', 'g:ctl', 'f:fn', 'f:rate', 'f:name', 'f:intr',
                        'desc:g:ctl', 'desc:g:ctl:bad', 'bare'], 5))
     for opl, depth in plans:
@@ -1182,11 +1415,13 @@ def main(ctx):
     # (d) two threads: a small alphabet (few context accesses per build)
     # at the full preemption bound, the rich alphabet one preemption lower
     small = SMALL + ['f:rate', 'f:name', 'f:intr', 'desc:g:s1',
-                     'desc:g:s1:bad']
-    rich = GOOD + ['f:fn', 'f:nan', 'desc:g:ctl', 'desc:g:ctl:bad']
+                     'desc:g:s1:bad', 'add:g:s1']
+    rich = GOOD + ['f:fn', 'f:nan', 'desc:g:ctl', 'desc:g:ctl:bad',
+                   'g:sh2']
     if not quick:
-        small = small + ['f:nan', 'f:sig', 'desc:g:s2:nokeep']
-        rich = rich + ['f:wrap', 'f:intr']
+        small = small + ['f:nan', 'f:sig', 'desc:g:s2:nokeep', 'deco:g:s1',
+                         'f:type']
+        rich = rich + ['f:wrap', 'f:intr', 'g:sh1', 'f:sh']
     max_pre = 2 if quick else 3
     nscn = 0
     for label, opl, mp in (('small', small, max_pre),
@@ -1200,10 +1435,13 @@ def main(ctx):
                   f'alphabet ({len(opl)} operations), <= {mp} preemptions',
                   cands)
     ctx.extra['scenarios'] = nscn
-    ctx.extra['operations'] = ops
+    ctx.extra['operations'] = sorted(set(ops + OPS2))
     ctx.extra['exhaustive_bounds'] = [b for b in ctx.bounds
                                       if 'not exhaustive' not in b]
 
     # (c) census
-    _census(ctx, tagbase, 256 if quick else 32, cands, refs)
+    if _parts() is None or 'c' in _parts():
+        _census(ctx, tagbase, 256 if quick else 32, cands, refs)
+    if _parts() is not None:
+        ctx.caps.append(f'partial run: C20_PARTS={os.environ["C20_PARTS"]}')
     _resolve(ctx, cands)
